@@ -269,6 +269,7 @@ _PORD = re.compile(r"^<.* as std::cmp::PartialOrd(<.*>)?>::(lt|le|gt|ge)$")
 _IS_SOME = re.compile(r"^std::option::Option::<.*>::(is_some|is_none)$")
 _IS_OK = re.compile(r"^std::result::Result::<.*>::(is_ok|is_err)$")
 _SAT = re.compile(r"^(?:core|std)::num::<impl (?:usize|u32|u64|isize|i32|i64)>::(?:saturating|wrapping)_(add|mul|sub)$")
+_SLICE_GET = re.compile(r"^(core|std)::slice::<impl \[.*\]>::get$")
 _TRY_BRANCH = re.compile(r"^<std::(option::Option|result::Result)<.*> as std::ops::Try>::branch$")
 _FROM_RESIDUAL = re.compile(r"^<std::(option::Option|result::Result)<.*> as std::ops::FromResidual<.*>>::from_residual$")
 
@@ -329,6 +330,18 @@ def norm_call(res_inst, res, args, fn=None):
         if op in ("add", "mul"):
             return mk_comm(op, args[0], args[1])
         return ("satsub", args[0], args[1])
+    if p.startswith("std::option::Option::<") and p.split("::")[-1].split("<")[0] in ("copied", "cloned", "flatten") and len(args) == 1:
+        m_ = p.split("::")[-1].split("<")[0]
+        a0 = args[0]
+        if a0[0] == "enumc" and a0[2] == "None":
+            return a0
+        if a0[0] == "agg" and a0[2] == "Some" and len(a0[4]) == 1:
+            inner = a0[4][0]
+            if m_ == "flatten":
+                # (copied/cloned are erased earlier, so the payload may still carry the reference)
+                return inner[1] if inner[0] == "ref" else inner
+            if inner[0] == "ref":
+                return ("agg", a0[1], "Some", a0[3], (inner[1],))
     if p.startswith("std::option::Option::<") and p.split("::")[-1].split("<")[0] == "unwrap_or" and len(args) == 2:
         # unwrap_or of a known variant
         if args[0][0] == "agg" and args[0][2] == "Some" and len(args[0][4]) == 1:
@@ -966,6 +979,25 @@ class Walker:
                             if root == args[0]:
                                 val = ("vec", hvv[2])
                 if rr is not None and short(rr) in ("Option::map", "Option::and_then") and len(args) == 2 and args[1][0] == "closure" and self._desugar_option_adaptor(short(rr), args, t, st, path, visited, bb):
+                    return
+                if rr is not None and _SLICE_GET.match(rr) and len(args) == 2 and t["t"] is not None and fn is not None and "Range" not in " ".join(fn.get("targs", [])):
+                    # v.get(i) is the guarded index it abbreviates: Some(&v[i]) when i < len(v), None otherwise
+                    atom = mk_lt(args[1], mk_len(args[0]))
+                    known = st["known"].get(atom)
+                    for o in (True, False):
+                        if known is not None and known is not o:
+                            continue
+                        st2 = {"env": dict(st["env"]), "heap": dict(st["heap"]), "known": dict(st["known"]), "epoch": st["epoch"], "subst": dict(st["subst"]), "mutn": st.get("mutn", 0)}
+                        p2 = Path()
+                        p2.guards = list(path.guards)
+                        p2.effects = list(path.effects)
+                        p2.blocks = list(path.blocks)
+                        if known is None:
+                            st2["known"][atom] = o
+                            p2.guards.append((atom, o))
+                        v2 = ("agg", "std::option::Option", "Some", ("0",), (("ref", ("index", args[0], args[1])),)) if o else ("enumc", "std::option::Option", "None")
+                        self._assign(t["dest"], v2, st2, p2, bb)
+                        self._go(t["t"], st2, p2, visited)
                     return
                 path.effects.append(("call", short(rr) if rr else "<indirect>", args, bb, val))
                 # &mut arguments or impure callee: bump epoch
